@@ -229,6 +229,12 @@ func (s *State) assume(t *Term) {
 	if t.Op == "true" {
 		return
 	}
+	if t.Op == "and" {
+		for _, a := range t.Args {
+			s.assume(a)
+		}
+		return
+	}
 	s.pc = append(s.pc, t)
 }
 
